@@ -11,11 +11,14 @@ import (
 	"errors"
 	"io/fs"
 	"os"
+	"path/filepath"
 	"syscall"
 	"time"
 )
 
 type (
+	LinkError = os.LinkError
+	SyscallError = os.SyscallError
 	FileMode = fs.FileMode
 	FileInfo = fs.FileInfo
 	DirEntry = fs.DirEntry
@@ -305,9 +308,16 @@ func ReadDir(name string) ([]DirEntry, error) {
 	return os.ReadDir(name)
 }
 
+// CrossDevice, when set, makes every rename between different directories fail with EXDEV, as it does when the
+// two directories are on different file systems (an environment answer, not a fault of one step).
+var CrossDevice bool
+
 func Rename(oldpath, newpath string) error {
 	if _, err := gate(Step{Kind: "rename", Path: oldpath, Path2: newpath, Mutating: true}); err != nil {
 		return err
+	}
+	if CrossDevice && filepath.Dir(oldpath) != filepath.Dir(newpath) {
+		return &os.LinkError{Op: "rename", Old: oldpath, New: newpath, Err: syscall.EXDEV}
 	}
 	return os.Rename(oldpath, newpath)
 }
